@@ -3,6 +3,7 @@ package main
 // Memory model: structural pointers over typed heaps.
 
 import (
+	"hash/fnv"
 	"fmt"
 	"go/types"
 	"sort"
@@ -152,6 +153,9 @@ func (x *Exec) cellTerm(st *State, p *Pointer) string {
 		}
 		return x.termOf(v)
 	}
+	if p.Heap == "" && p.Root != "" && len(p.Path) == 0 && ss.kindOf(p.Elem) == KOpaque {
+		return sx("select", st.heap("H_opq", "(Array Int Int)"), p.Root)
+	}
 	if p.Heap == "" {
 		bail("dereference of opaque pointer to %v", p.Elem)
 	}
@@ -160,9 +164,33 @@ func (x *Exec) cellTerm(st *State, p *Pointer) string {
 		return sx("select", sx("select", h, p.Root), p.Idx)
 	}
 	if p.Enc {
-		return x.encCell(p, func(key, sort string) string { return st.heap(key, sort) })
+		return x.nameCell(st, p, x.encCell(p, func(key, sort string) string { return st.heap(key, sort) }), nil)
 	}
 	return sx("select", h, p.Root)
+}
+
+// nameCell introduces a constant for the (large, ite-laden) term of an interior-encoded cell, so that
+// it can occur in quantifier patterns and formulas stay small. Not done under binders.
+func (x *Exec) nameCell(st *State, p *Pointer, term string, bound map[string]bool) string {
+	if st == nil || !strings.HasPrefix(term, "(ite ") {
+		return term
+	}
+	if len(bound) > 0 {
+		t := parseSexp(term)
+		for b := range bound {
+			if t != nil && t.mentions(b) {
+				return term
+			}
+		}
+	}
+	hh := fnv.New64a()
+	hh.Write([]byte(term))
+	name := fmt.Sprintf("cell_%x", hh.Sum64())
+	if !st.declSet[name] {
+		st.declare(name, x.P.ss.sortOf(p.Elem))
+		st.assume(sx("=", name, term))
+	}
+	return name
 }
 
 // encCell: the object a possibly interior-encoded pointer designates.
@@ -244,6 +272,12 @@ func (x *Exec) store(st *State, p *Pointer, v Val) {
 			oldT = x.termOf(old)
 		}
 		st.cells[p.Local] = x.mkVal(x.updatePath(oldT, p.Local.typ, p.Path, x.termOf(v)), p.Local.typ)
+		return
+	}
+	if p.Heap == "" && p.Root != "" && len(p.Path) == 0 && ss.kindOf(p.Elem) == KOpaque {
+		// a variable of an opaque type (time.Time, io.Writer ...): its value is an uninterpreted Int
+		h := st.heap("H_opq", "(Array Int Int)")
+		x.setHeap(st, "H_opq", "(Array Int Int)", sx("store", h, p.Root, x.termOf(v)))
 		return
 	}
 	if p.Heap == "" {
